@@ -15,7 +15,7 @@ func init() {
 	register(&propertyDef{
 		id:    "C14",
 		title: "a prepared workflow can be run again and concurrently",
-		rules: []ruleFunc{c14R1, c14R2, c14R3, c14R4, c14R5, c14R6},
+		rules: []ruleFunc{c14R1, c14R2, c14R3, c14R4, c14R5, c14R6, c14R7},
 		decided: "the run path never writes prepared state: no store, map update or element store whose target belongs to an executableWorkflow, DAGItem, OneOf/OptionalExpression, Lifecycle, Workflow or runnableStep value (R1; the same detector must find the known prepare-time writers, so it cannot pass vacuously); " +
 			"every field of the per-run state is initialised from a fresh allocation, a constant, the caller's arguments or a read-only field of the prepared workflow, the DAG specifically from Clone(), and no mutating graph method is invoked on the prepared DAG (R2); the expression annotations and node data are written only by the tabled prepare functions (R3); " +
 			"(thorough) the pluginsdk schema methods used at run time do not write their receiver (R4). Shared: sub-runs of a prepared workflow get the step context itself, not one a sibling run cancels (R5 = C05.R7).",
@@ -550,7 +550,7 @@ var c14SchemaWriteTable = []string{}
 // C14.R6 the prepare path does not write into maps or slices its caller handed in.
 func c14R6(c *Ctx) {
 	const rule = "C14.R6"
-	c.explain("C14.R6 no function of the parse/prepare paths updates, deletes from or stores an element into a map or slice that it received as an argument of an entry point (an exported function or an interface method: Prepare's workflow context, LoadSchema's inputs and context, ...): the caller's value is shared with overlapping and later preparations of the same text — taking a file out of the context \"for the duration of the nested preparation\" makes a concurrent Prepare fail with `not found in current workflow context` (or die with concurrent map writes)")
+	c.explain("C14.R6 no function of the parse/prepare paths updates, deletes from or stores an element into a map or slice — or stores into a field of a repo struct through a pointer — that it received as an argument of an entry point (an exported function or an interface method: Prepare's workflow context, LoadSchema's inputs and context, ...): the caller's value is shared with overlapping and later preparations of the same text — taking a file out of the context \"for the duration of the nested preparation\" makes a concurrent Prepare fail with `not found in current workflow context` (or die with concurrent map writes)")
 	scope := map[*ssa.Function][]string{}
 	for f, ch := range c.Scopes().parse {
 		scope[f] = ch
@@ -569,8 +569,16 @@ func c14R6(c *Ctx) {
 		if len(paramSites[p]) > 0 {
 			return false
 		}
-		switch p.Type().Underlying().(type) {
+		switch pt := p.Type().Underlying().(type) {
 		case *types.Map, *types.Slice:
+		case *types.Pointer:
+			// a pointer to a struct of the repo handed in by the caller (the parsed *Workflow)
+			if _, isStruct := pt.Elem().Underlying().(*types.Struct); !isStruct {
+				return false
+			}
+			if nt := namedOf(pt); nt == nil || nt.Pkg() == nil || !strings.HasPrefix(nt.Pkg().Path(), repoModule) {
+				return false
+			}
 		default:
 			return false
 		}
@@ -604,6 +612,19 @@ func c14R6(c *Ctx) {
 				if ia, ok := x.Addr.(*ssa.IndexAddr); ok {
 					if _, isSlice := ia.X.Type().Underlying().(*types.Slice); isSlice {
 						target, what = ia.X, "element store"
+					}
+				}
+				if fa, ok := x.Addr.(*ssa.FieldAddr); ok {
+					base := fa.X
+					for i := 0; i < 4; i++ {
+						if f2, ok := base.(*ssa.FieldAddr); ok {
+							base = f2.X
+							continue
+						}
+						break
+					}
+					if _, isParam := base.(*ssa.Parameter); isParam {
+						target, what = base, "store into the field "+fieldName(fieldAddrVar(fa))
 					}
 				}
 			}
